@@ -192,6 +192,73 @@ def defid(d):
     return None if d is None or d.get("file") == "NOFILE" else (d["file"], d["idx"])
 
 
+def c08_own_imports(V, tier):
+    """C08 on the import universe (Imports.tla): the workspaces whose using file is a TEST MODULE that imports fixtures itself,
+    next to an unrelated conftest.py in a sibling directory that defines every name too.  Files are on disk (imports are
+    resolved with Path::exists) and analysed through analyze_file in two registration orders -- the sibling first / the
+    sibling last; navigation from every parameter and the per-file view must not depend on the order.  (What the answer
+    SHOULD be is C14's subject; here only order independence is judged.)"""
+    meta = C.run_tlc("Imports", "Imports.cfg", workers=12, timeout=3600)
+    if not meta["ok"]:
+        raise C.ToolError("TLC on Imports failed: %s" % meta["errors"])
+    C.build_harness()
+    base = os.path.join(C.BUILD, "ws", "c08imp-%d" % os.getpid())
+    shutil.rmtree(base, ignore_errors=True)
+    cases = [c for c in C.tlc_cases(meta) if c["using"] == "ti"]
+    names = ["fa", "fb", "fc", "fp", "fz", "fr"]
+    sib_text = "import pytest\n\n\n" + "".join("@pytest.fixture\ndef %s():\n    return 0\n\n\n" % nm for nm in names)
+    hcases, ctx = [], {}
+    for n, c in enumerate(cases):
+        root = os.path.join(base, "i%d" % n)
+        uni = imp_universe(root)
+        files = {s: R.render_checked(uni, s, m) for s, m in c["ws"].items()}
+        for s, r in files.items():
+            os.makedirs(os.path.dirname(uni.paths[s]), exist_ok=True)
+            with open(uni.paths[s], "w") as fh:
+                fh.write(r.text)
+        sib = os.path.join(root, "R", "other", "conftest.py")
+        os.makedirs(os.path.dirname(sib), exist_ok=True)
+        with open(sib, "w") as fh:
+            fh.write(sib_text)
+        order = sorted(files)
+        it_idx = len(c["ws"]["ti"]["items"])
+        queries = []
+        for j in range(1, 7):
+            ln, cs, ce = files["ti"].use_pos[(it_idx, "p", j)]
+            queries.append({"op": "goto", "path": uni.paths["ti"], "line": ln - 1, "col": cs})
+        queries.append({"op": "available", "path": uni.paths["ti"]})
+        for k, first in enumerate((True, False)):
+            seq = [("sib", sib, sib_text)] if first else []
+            seq += [(s, uni.paths[s], files[s].text) for s in order]
+            if not first:
+                seq.append(("sib", sib, sib_text))
+            ops = [{"op": "analyze", "path": p, "text": t} for _, p, t in seq] + queries
+            hcases.append({"id": 2 * n + k, "ops": ops})
+        ctx[n] = (c, root, len(order) + 1, {s: f.text for s, f in files.items()})
+    res = {r["id"]: r["res"] for r in C.run_harness(hcases, threads=8)}
+    for n, (c, root, nan, texts) in ctx.items():
+        a, b = res[2 * n][nan:], res[2 * n + 1][nan:]
+        V.count()
+        V.nontriv("ownimp" + json.dumps(c["shape"], sort_keys=True))
+
+        def norm(x):
+            if isinstance(x, list):
+                return sorted((d.get("name"), os.path.relpath(d.get("file", "?"), root), d.get("line")) for d in x)
+            if isinstance(x, dict) and "file" in x:
+                return (os.path.relpath(x["file"], root), x.get("line"))
+            return x
+        na, nb = [norm(x) for x in a], [norm(x) for x in b]
+        if na != nb:
+            k = next(i for i in range(len(na)) if na[i] != nb[i])
+            V.violation({"import_shape": c["shape"], "query": (names + ["available fixtures of the test module"])[k],
+                         "sibling_conftest_analysed_first": na[k], "sibling_conftest_analysed_last": nb[k],
+                         "files": dict(texts, **{"R/other/conftest.py": sib_text})},
+                        "answers for a test module that imports fixtures itself depend on the registration order of an unrelated "
+                        "same-named definition")
+    shutil.rmtree(base, ignore_errors=True)
+    return len(ctx), meta
+
+
 def check_c14(tier):
     V = C.Verdict("C14", tier, "model_checking")
     meta = C.run_tlc("Imports", "Imports.cfg", workers=12, timeout=3600)
